@@ -1,5 +1,7 @@
 """C05 — Poisson L / CL / S / M statistics: correspondence of csep.core.poisson_evaluations with Model/PoissonLL.lean
 (Float instance) + direct oracle (sum of scipy.stats.poisson.logpmf over ALL bins, math.fsum)."""
+import contextlib
+import io
 import math
 import random
 import struct
@@ -27,7 +29,14 @@ THEOREMS = ["PoissonLL.stat_eq_sum_logpmf", "PoissonLL.jointLL_eq_sum_logpmf", "
             "PoissonLL.stat_CL_eq", "PoissonLL.stat_S_eq", "PoissonLL.stat_M_eq", "PoissonLL.sim_entry_is_stat",
             "PoissonLL.scaled_rates_sum_to_nobs", "PoissonLL.logPmf_eq_cell", "PoissonLL.stat_nonpos",
             "PoissonLL.stat_norm_scale_invariant", "PoissonLL.poissonPmf_le_one", "PoissonLL.poissonCell_eq_logpmf",
-            "PoissonLL.spatialMap_sum_eq_stat_S"]
+            "PoissonLL.spatialMap_sum_eq_stat_S",
+            # round 4 (Properties/C05_Chain.lean): the whole test as one function, catalog -> counts -> simulation -> statistic
+            "PoissonTest.run_spec", "PoissonTest.run_total", "PoissonTest.sim_entries_eq_sum_logpmf",
+            "PoissonTest.sim_entries_eq_sum_logpmf_norm", "PoissonTest.sim_entries_finite",
+            "PoissonTest.observed_arrays_of_one_matrix", "PoissonTest.public_observed_eq_testStat",
+            "PoissonTest.stat_unnorm_scaling", "PoissonTest.stat_S_depends_only_on_spatial_sums",
+            "PoissonTest.stat_M_depends_only_on_magnitude_sums", "PoissonTest.poissonLogLikelihood_eq_logPmf",
+            "PoissonTest.stat_eq_sum_poissonLogLikelihood"]
 TRUSTED = ["Lean 4.33 kernel", "axioms: propext, Classical.choice, Quot.sound at most",
            "Real.log / Real.exp / Nat.factorial stand for numpy.log, scipy.special.loggamma(n+1) (RealOps); rounding of "
            "these functions and of float sums is not modelled, the Float instance is compared numerically on every run",
@@ -43,10 +52,22 @@ RULE = ("random gridded forecasts of shape (1..40)x(1..8), rates 10^U(-12,3) (cl
         "scaled by c (GriddedDataSet.scale), 15% of catalogs put last-bin events far above the last magnitude edge; 45% of the rate arrays "
         "are not C-contiguous (Fortran order, transposed view, strided slices of larger arrays, negative strides); in 60% of the "
         "catalogs a share of the events lies 1e-8..1e-4 below an upper magnitude / cell edge or exactly on a lower magnitude edge "
-        "(counted in the half-open bin that contains them). A case is non-trivial when "
+        "(counted in the half-open bin that contains them); round 4: catalogs bound to no region (M-test) or to a region "
+        "without magnitudes (S, M), exact duplicate events, integer-valued rates in an int64 array, verbose runs of 100-130 "
+        "simulations, a second scale() of the same forecast object followed by more tests; every injected call is also run "
+        "through the chained Lean model (events -> gridding -> counts; float weights -> placement -> simulated catalogs -> "
+        "statistics -> quantile) and the simulated catalogs are compared exactly. A case is non-trivial when "
         "some bin holds >= 2 events and N_obs != N_fore; distinct by (rate bits, counts).")
 
 MODES = ("L", "CL", "S", "M")
+# input classes on which the UNCHANGED code does not deliver a statistic although its own fallback code says it means to
+# (see notes/C05.md "Observed"): kept out of the verdict until decided; the calls are counted, not made
+AWAITING_DECISION = ["catalog-without-region: likelihood_test / conditional_likelihood_test (AttributeError; the "
+                     "`except CSEPCatalogException` fallback at poisson_evaluations.py:193-196, 415-418 never fires)",
+                     "catalog-with-spatial-only-region: likelihood_test / conditional_likelihood_test (CSEPCatalogException "
+                     "from spatial_magnitude_counts; same dead fallback)"]
+# budget of the chained Lean op (Soft64 weights + placement are exact rational arithmetic): bins * events * simulations
+CHAIN_BUDGET = 12000
 # memory layouts of the forecast's 2-D rate array (same values, same shape): C-contiguous, Fortran-ordered, the transposed
 # view of a (mag, cell) table, non-contiguous slices of larger arrays (the surrounding memory holds other numbers),
 # reversed (negative strides) views
@@ -162,13 +183,17 @@ def _gen_spec(rng, tier):
     else:
         data = numpy.where(g.random((ns, nm)) < 0.5, 1e-12, 1e3) * g.choice([1.0, 1.0, 0.999999], size=(ns, nm))
     data = numpy.where(g.random((ns, nm)) < zfrac, 0.0, data)
+    # integer-valued rates held in an int64 array (counts-like forecasts): same numbers, another dtype
+    dtype = "int64" if (cls in ("huge", "near1") and rng.random() < 0.25) else "float64"
+    if dtype == "int64":
+        data = numpy.rint(data)
     k = rng.random()
     if k < 0.12 and ns > 1:
         data[rng.randrange(ns), :] = 0.0          # a cell with zero spatial marginal
     elif k < 0.24 and nm > 1:
         data[:, rng.randrange(nm)] = 0.0          # a magnitude bin with zero marginal
     if not (data > 0).any():
-        data[rng.randrange(ns), rng.randrange(nm)] = 10.0 ** rng.uniform(-12, 3)
+        data[rng.randrange(ns), rng.randrange(nm)] = 10.0 ** rng.uniform(-12, 3) if dtype == "float64" else float(rng.randint(1, 9))
     n_fore = float(data.sum())
     # number of observed events
     ncls = rng.choice(["zero", "one", "near-fore", "far-above", "max", "small", "any"])
@@ -199,17 +224,21 @@ def _gen_spec(rng, tier):
         data[forced] = 0.0
         if not (data > 0).any():
             q = rng.choice([q for q in range(ns * nm) if (q // nm, q % nm) != forced])
-            data[q // nm, q % nm] = 10.0 ** rng.uniform(-12, 3)
+            data[q // nm, q % nm] = 10.0 ** rng.uniform(-12, 3) if dtype == "float64" else float(rng.randint(1, 9))
         chosen = [c for c in chosen if data[c] > 0 or allow_zero] + [forced]
     events = []
     # share of events placed a little BELOW the upper edge of their magnitude bin / cell (outside the round-off band of the
     # binning routine, which is ~1e-14 here, but within 1e-4 of the edge) or exactly ON the lower magnitude edge
     edge_share = rng.choice([0.0, 0.0, 0.1, 0.3, 1.0])
+    # round 4: exact duplicates (same coordinates and magnitude, optionally the same origin time): each one is an event
+    dup_share = rng.choice([0.0, 0.0, 0.0, 0.2, 0.6])
     for e in range(n):
         i, j = forced if (forced is not None and e == 0) else rng.choice(chosen)
         ev = [i, j, rng.uniform(0.2, 0.8), rng.uniform(0.2, 0.8), rng.uniform(0.2, 0.8)]
         if rng.random() < edge_share:
             ev.append(rng.choice(["m", "m", "m", "m", "x", "y", "xy", "xym", "mon"]) + ":" + repr(rng.choice(EDGE_DELTAS)))
+        if events and rng.random() < dup_share and not (forced is not None and e == 0):
+            ev = list(events[-1])          # an exact duplicate of the previous event (location, magnitude; see `dup_time`)
         events.append(ev)
     nx = rng.randint(1, ns)
     spec = dict(
@@ -222,7 +251,21 @@ def _gen_spec(rng, tier):
         rn_seed=rng.randrange(2 ** 32), l_seed=rng.randrange(2 ** 31), same_region=rng.random() < 0.5,
         rn_edge=rng.random() < 0.2, fscale=rng.choice([None, None, None, 2.0, 0.5, 10.0, 3.0, 0.1]),
         open_mag=rng.random() < 0.15)
+    # round 4: what region the catalog is bound to (None = the forecast's / an equal copy as before; "none" = no region at
+    # all: only the M-test is defined for it; "spatial-only" = a region without magnitudes: S- and M-test), the array dtype,
+    # and a rare long verbose run (>= 100 simulations, progress printing on)
+    spec["cat_region"] = rng.choice([None] * 8 + ["none", "spatial-only"])
+    spec["dtype"] = dtype
+    if dtype == "int64":
+        spec["fscale"] = None
+    spec["long_run"] = rng.random() < (0.02 if tier == "quick" else 0.01)
+    spec["dup_time"] = rng.random() < 0.5
+    # after the five calls: re-scale the SAME forecast object and test again (state kept on the forecast between calls)
+    spec["rescale_after"] = rng.choice([None] * 6 + [0.5, 3.0, 7.0]) if dtype == "float64" else None
     return spec
+
+
+_BUILD_INFO = {}
 
 
 def _build(spec):
@@ -242,10 +285,15 @@ def _build(spec):
         data = numpy.array(fore.data, dtype=float)
     else:
         # the forecast's array and the harness's array are two separate arrays with the same values and memory layout
-        fore = GriddedForecast(data=_with_layout(data, layout), region=region, magnitudes=mags, name="forecast")
+        arr = _with_layout(data, layout)
+        if spec.get("dtype") == "int64":
+            arr = arr.astype(numpy.int64)
+            assert numpy.array_equal(arr, data)
+        fore = GriddedForecast(data=arr, region=region, magnitudes=mags, name="forecast")
         data = _with_layout(data, layout) if layout != "C" else data.copy()
     cnt = numpy.zeros((ns, nm), dtype=int)
     ev = []
+    ndup = 0
     for k, e in enumerate(spec["events"]):
         i, j = e[0], e[1]
         fx, fy, fm = float.fromhex(e[2]), float.fromhex(e[3]), float.fromhex(e[4])
@@ -271,11 +319,42 @@ def _build(spec):
             assert mags[j] <= mag and (j + 1 >= nm or mag < mags[j + 1] - band), (mag, mags, j)
             assert origins[i, 0] + band < lon < origins[i, 0] + dh - band and \
                 origins[i, 1] + band < lat < origins[i, 1] + dh - band, (lon, lat, origins[i], dh)
-        ev.append((str(k), 1000 * k, lat, lon, 10.0, mag))
+        t_k = 1000 * k
+        if spec.get("dup_time") and k > 0 and e == spec["events"][k - 1]:
+            t_k = ev[-1][1]
+        ev.append((str(k), t_k, lat, lon, 10.0, mag))
+        if k > 0 and e == spec["events"][k - 1]:
+            ndup += 1
         cnt[i, j] += 1
     cat_region = fore.region if spec["same_region"] else CartesianGrid2D.from_origins(origins, dh=dh, magnitudes=mags)
+    if spec.get("cat_region") == "none":
+        cat_region = None
+    elif spec.get("cat_region") == "spatial-only":
+        cat_region = CartesianGrid2D.from_origins(origins, dh=dh)
     cat = CSEPCatalog(data=ev, region=cat_region, name="catalog")
+    _BUILD_INFO["duplicates"] = ndup
     return fore, cat, data, cnt
+
+
+@contextlib.contextmanager
+def _capture(pe):
+    """record the array every call of poisson_evaluations._simulate_catalog returns (nothing in /repo is edited)"""
+    rec = []
+    orig = getattr(pe, "_simulate_catalog", None)
+    if orig is None:
+        yield rec
+        return
+
+    def wrap(*a, **k):
+        out = orig(*a, **k)
+        rec.append(numpy.asarray(out).astype(int).ravel().copy())
+        return out
+
+    pe._simulate_catalog = wrap
+    try:
+        yield rec
+    finally:
+        pe._simulate_catalog = orig
 
 
 def _sim_counts(rates1d, rn):
@@ -330,34 +409,67 @@ def _eval_case(run, drv, pending, spec, tag="gen"):
                 run.count("edge-event-" + e[5].split(":")[0])
     tests = {"L": pe.likelihood_test, "CL": pe.conditional_likelihood_test, "S": pe.spatial_test, "M": pe.magnitude_test}
     calls = [("CL", "inject"), ("S", "inject"), ("M", "inject"), ("L", "inject1"), ("L", "seed")]
+    creg = spec.get("cat_region")
+    run.count(f"catalog-region-{creg or ('same' if spec['same_region'] else 'copy')}")
+    run.count(f"dtype-{spec.get('dtype', 'float64')}")
+    if creg == "none":
+        # a catalog bound to no region: only the M-test is defined (S needs a region by design; L / CL: AWAITING_DECISION)
+        calls = [("M", "inject")]
+        run.count("awaiting-decision-skipped", 2)
+    elif creg == "spatial-only":
+        calls = [("S", "inject"), ("M", "inject")]
+        run.count("awaiting-decision-skipped", 2)
+    if spec.get("long_run"):
+        calls.append((("CL", "S", "M")[spec["rn_seed"] % 3] if creg is None else "M", "long"))
+    if spec.get("rescale_after") and creg is None:
+        # state kept on the forecast object between calls: re-scale the SAME object, then test again
+        calls += [("RESCALE", spec["rescale_after"]), ("CL", "inject"), ("M", "inject"), ("S", "inject")]
+    if _BUILD_INFO.get("duplicates"):
+        run.count("catalog-with-duplicate-events")
+        run.count("duplicate-events", _BUILD_INFO["duplicates"])
+    evtxt = ",".join(f"{e[0]}:{e[1]}" for e in spec["events"]) if spec["events"] else "-"
     for mode, how in calls:
+        if mode == "RESCALE":
+            fore.scale(how)                                   # GriddedDataSet.scale: data = _data * how from now on
+            data = numpy.array(fore.data, dtype=float)
+            run.count("rescaled-after-tests")
+            continue
         rates1d, obs1d, norm = _arrays(mode, data, cnt)
-        sims = []
+        sims, rn, draws_txt, nsim_call = [], None, "-", nsim
         try:
-            if how == "inject":
-                rn = g.random((nsim, n))
-                if spec["rn_edge"] and n > 0:
-                    rn[0, 0] = 0.0
-                    rn[-1, -1] = math.nextafter(1.0, 0.0)
-                res = tests[mode](fore, cat, num_simulations=nsim, random_numbers=rn)
-                sims = [_sim_counts(rates1d, rn[k, :]) for k in range(nsim)]
-            elif how == "inject1":
-                # one simulation: the number of events is the seeded Poisson draw; inject exactly that many numbers
-                numpy.random.seed(spec["l_seed"])
-                n1 = int(numpy.random.poisson(numpy.sum(data)))
-                if n1 > 200000:
-                    continue
-                rn = g.random((1, n1))
-                res = tests[mode](fore, cat, num_simulations=1, seed=spec["l_seed"], random_numbers=rn)
-                sims = [_sim_counts(rates1d, rn[0, :])]
-            else:
-                if float(data.sum()) * nsim > 400000:
-                    continue
-                res = tests[mode](fore, cat, num_simulations=nsim, seed=spec["l_seed"])
-                numpy.random.seed(spec["l_seed"])
-                for _ in range(nsim):
-                    nk = int(numpy.random.poisson(numpy.sum(data)))
-                    sims.append(_sim_counts(rates1d, numpy.random.rand(nk)))
+            with _capture(pe) as rec:
+                if how == "inject":
+                    rn = g.random((nsim, n))
+                    if spec["rn_edge"] and n > 0:
+                        rn[0, 0] = 0.0
+                        rn[-1, -1] = math.nextafter(1.0, 0.0)
+                    res = tests[mode](fore, cat, num_simulations=nsim, random_numbers=rn)
+                    sims = [_sim_counts(rates1d, rn[k, :]) for k in range(nsim)]
+                elif how == "long":
+                    # >= 100 simulations with the progress printing on (the `(idx + 1) % 100 == 0` branch)
+                    nsim_call = 100 + spec["rn_seed"] % 31
+                    rn = g.random((nsim_call, n))
+                    with contextlib.redirect_stdout(io.StringIO()):
+                        res = tests[mode](fore, cat, num_simulations=nsim_call, random_numbers=rn, verbose=True)
+                    sims = [_sim_counts(rates1d, rn[k, :]) for k in range(nsim_call)]
+                elif how == "inject1":
+                    # one simulation: the number of events is the seeded Poisson draw; inject exactly that many numbers
+                    numpy.random.seed(spec["l_seed"])
+                    n1 = int(numpy.random.poisson(numpy.sum(data)))
+                    if n1 > 200000:
+                        continue
+                    rn = g.random((1, n1))
+                    res = tests[mode](fore, cat, num_simulations=1, seed=spec["l_seed"], random_numbers=rn)
+                    sims = [_sim_counts(rates1d, rn[0, :])]
+                    draws_txt, nsim_call = str(n1), 1
+                else:
+                    if float(data.sum()) * nsim > 400000:
+                        continue
+                    res = tests[mode](fore, cat, num_simulations=nsim, seed=spec["l_seed"])
+                    numpy.random.seed(spec["l_seed"])
+                    for _ in range(nsim):
+                        nk = int(numpy.random.poisson(numpy.sum(data)))
+                        sims.append(_sim_counts(rates1d, numpy.random.rand(nk)))
         except Exception as e:  # the property promises a value for every forecast/catalog in its domain
             run.oracle_failure(case, f"{mode}-test ({how}) raised {type(e).__name__}: {e}")
             continue
@@ -367,6 +479,12 @@ def _eval_case(run, drv, pending, spec, tag="gen"):
         if len(td) != len(sims):
             run.oracle_failure(case, f"{mode}-test ({how}): test_distribution has {len(td)} entries, {len(sims)} simulations asked")
             continue
+        # the simulated catalogs the code itself built (observed by wrapping `_simulate_catalog`); when the function is
+        # not called once per simulation (a rewrite may inline it) the harness's own placement stands in
+        observed_sims = len(rec) == len(sims) and all(len(r) == len(rates1d) for r in rec)
+        if observed_sims:
+            run.count("simulated-arrays-observed")
+            sims = rec
         orates = _oracle_arrays(mode, data, None, True)
         # observed statistic
         entries = [("observed", obs1d, obs)] + [(f"simulated[{k}]", sims[k], td[k]) for k in range(len(sims))]
@@ -385,11 +503,31 @@ def _eval_case(run, drv, pending, spec, tag="gen"):
                 run.count("value-neginf")
             else:
                 run.count("value-finite")
+        # the reported quantile is the fraction of the RETURNED simulated statistics not exceeding the returned observed one
+        if td and not (math.isnan(obs) or any(math.isnan(v) for v in td)):
+            kq = sum(1 for v in td if v <= obs)
+            if float(res.quantile) != kq / len(td):
+                run.oracle_failure(case, f"{mode}-test ({how}): quantile {float(res.quantile)!r} is not {kq}/{len(td)}")
         # correspondence with the Lean Float model
         simtxt = ";".join(",".join(str(int(c)) for c in s) for s in sims) if sims else "-"
         i = drv.ask(f"c05_mode {mode} {_rows(data, _bits)} {_rows(cnt, lambda c: str(int(c)))} {simtxt}")
-        pending.append((case, mode, how, i, impl_vals, scales))
-    _cells_check(run, drv, pending, case, fore, cat, data, cnt)
+        pending.append((case, mode, how, i, impl_vals, scales, None))
+        # correspondence with the CHAINED model: events -> C03 gridding -> observed array; forecast array -> C06 float
+        # weights + placement of the injected numbers -> simulated arrays; statistics; quantile
+        if rn is not None and how != "long":
+            cost = len(rates1d) * max(1, rn.shape[1]) * rn.shape[0]
+            if cost <= CHAIN_BUDGET or spec["rn_seed"] % 20 == 0:
+                rowtxt = ";".join(",".join(_bits(x) for x in row) for row in rn) if rn.shape[1] else "-"
+                i = drv.ask(f"c05_public {mode} {nm} {_rows(data, _bits)} {evtxt} {draws_txt} {nsim_call} {rowtxt}")
+                gap = min([abs(v - obs) for v in td if not math.isinf(v - obs)] or [math.inf])
+                pending.append((case, mode, how + "/chain", i, impl_vals, scales,
+                                dict(sims=[[int(c) for c in s] for s in sims], quantile=float(res.quantile), nsim=len(td),
+                                     near_tie=gap <= 1e-7 * max(scales + [1.0]))))
+                run.count("chain-compared")
+            else:
+                run.count("chain-skipped-budget")
+    if creg != "none":   # the per-cell map needs the catalog's spatial counts
+        _cells_check(run, drv, pending, case, fore, cat, data, cnt)
 
 
 def _cells_check(run, drv, pending, case, fore, cat, data, cnt):
@@ -423,12 +561,40 @@ def _cells_check(run, drv, pending, case, fore, cat, data, cnt):
         k = bad[0]
         run.oracle_failure(case, f"poisson_spatial_likelihood cell {k}: {float(poll[k])!r} != log pmf {float(ref[k])!r}")
     i = drv.ask(f"c05_cells {_rows(data, _bits)} {_rows(cnt, lambda c: str(int(c)))}")
-    pending.append((case, "cells", "poisson_spatial_likelihood", i, [float(x) for x in poll], scales))
+    pending.append((case, "cells", "poisson_spatial_likelihood", i, [float(x) for x in poll], scales, None))
+
+
+def _flush_chain(run, case, mode, how, line, impl_vals, scales, extra):
+    """chained model: `stats|simulated arrays|k:n`"""
+    parts = line.split("|")
+    if len(parts) != 3:
+        run.mismatch(dict(case, mode=mode, how=how), dict(values=[repr(v) for v in impl_vals]), line)
+        return
+    toks = parts[0].split(" ")
+    model = [(-math.inf if t == "ninf" else _unbits(t)) if (t == "ninf" or t.isdigit()) else None for t in toks]
+    arrs = [] if parts[1] == "-" else [[] if a == "-" else [int(x) for x in a.split(",")] for a in parts[1].split(";")]
+    ok = len(model) == len(impl_vals) and all(m is not None and _close(v, m, s) for v, m, s in zip(impl_vals, model, scales))
+    if not ok:
+        run.mismatch(dict(case, mode=mode, how=how), [repr(v) for v in impl_vals], [repr(m) for m in model])
+        return
+    if arrs != extra["sims"]:
+        run.mismatch(dict(case, mode=mode, how=how), dict(simulated_catalogs=extra["sims"]), dict(simulated_catalogs=arrs))
+        return
+    k, n = parts[2].split(":")
+    if int(n) != extra["nsim"]:
+        run.mismatch(dict(case, mode=mode, how=how), dict(nsim=extra["nsim"]), dict(nsim=int(n)))
+    elif not extra["near_tie"] and extra["quantile"] != int(k) / int(n):
+        run.mismatch(dict(case, mode=mode, how=how), dict(quantile=extra["quantile"]), dict(quantile=parts[2]))
+    for v, m in zip(impl_vals, model):
+        _track("model", v, m)
 
 
 def _flush(run, drv, pending):
     out = drv.run()
-    for case, mode, how, i, impl_vals, scales in pending:
+    for case, mode, how, i, impl_vals, scales, extra in pending:
+        if extra is not None:
+            _flush_chain(run, case, mode, how, out[i], impl_vals, scales, extra)
+            continue
         toks = out[i].replace(",", " ").split(" ")
         model = [(-math.inf if t == "ninf" else _unbits(t)) if (t == "ninf" or t.isdigit()) else None for t in toks]
         ok = len(model) == len(impl_vals) and all(m is not None and _close(v, m, s)
@@ -445,7 +611,7 @@ def _flush(run, drv, pending):
 
 def run(run, rng, tier):
     drv, pending = Driver(), []
-    n_cases = 1500 if tier == "quick" else 18000
+    n_cases = 1300 if tier == "quick" else 18000
     # fixed boundary cases first
     for spec in _corpus_specs():
         _eval_case(run, drv, pending, spec, tag="corpus")
